@@ -1034,6 +1034,27 @@ func (c *SpecCtx) locs(e Expr) []Loc {
 				hi = fmt.Sprintf("(+ (sl.off %s) %s)", v.T, c.eval(call.Args[2]).T)
 			}
 			return c.p.regionLocs("(sl.arr "+v.T+")", lo, hi, sl.Elem())
+		case "allmaps":
+			// every row of every map that has the type of field T.f: allmaps(T.f)
+			sel, ok := call.Args[0].(*ESel)
+			if !ok {
+				c.fail("allmaps(T.f) expected")
+			}
+			st, ok := c.resolveType(sel.X.String()).Underlying().(*types.Struct)
+			if !ok {
+				c.fail("allmaps: %s is not a struct", sel.X)
+			}
+			for i := 0; i < st.NumFields(); i++ {
+				if st.Field(i).Name() == sel.Name {
+					mt, ok := st.Field(i).Type().Underlying().(*types.Map)
+					if !ok {
+						c.fail("allmaps: %s is not a map", sel)
+					}
+					hh, hv := env.mapHeaps(mt)
+					return []Loc{{Heap: hh, All: true}, {Heap: hv, All: true}}
+				}
+			}
+			c.fail("allmaps: no field %s", sel.Name)
 		case "entries":
 			v := c.eval(call.Args[0])
 			mt, ok := v.Ty.Underlying().(*types.Map)
@@ -1076,6 +1097,13 @@ func (c *SpecCtx) locs(e Expr) []Loc {
 			for _, g := range env.specs.GFields {
 				if g.Field == id.Name {
 					owner := g.Type
+					if !strings.Contains(owner, ".") && owner != "any" && owner != "chan" && owner != "map" && owner != "func" {
+						// a type of the contract's own package: the accessor is named after the qualified type
+						func() {
+							defer func() { recover() }()
+							owner = ghostOwner(c.resolveType(owner))
+						}()
+					}
 					fn := env.fieldFnNamed("gfld_" + sanitize(owner) + "_" + g.Field)
 					return []Loc{{Heap: env.memHeap(c.resolveType(g.FType)), AllTag: env.fieldTag[fn]}}
 				}
